@@ -40,6 +40,10 @@ CLAIMED = {
    text="Deductive proof over the token, authorization and userinfo handlers: tokens are marshalled only after the code verified under a keymaster key with the code kind, unexpired, same redirect URI, and the caller was authenticated as the client bound into the code by secret or (secret-less client that may use PKCE) by a verifier matching the bound challenge; the ID token carries this issuer, the code's client as the only audience, the code's subject, the code's nonce, an expiry no later than the code's 16 h bound; the access token carries that subject and the userinfo audience; userinfo answers only for a verified access token of the access kind whose audience list contains the userinfo audience, with the subject in it.",
    note=TRUST + "go-jose signing/verification and AES-GCM sealing of the PKCE challenge are trusted contracts; the JWKS handler's publication is covered by C04's published-key predicate.",
    design="7 (C12)"),
+ "C09": dict(
+   text="Deductive proof that both certificate-signing wrappers are reached only with a loaded CA signer; the CA signers are written only under state.Mutex (lock-set obligation at every write) and only by loadSignersFromPemData, which requires the mutex held and Signer == nil and leaves Signer nil on every error path; unsealCA reaches it within the critical section in which it tested Signer == nil (taking the mutex forgets what was known about the signers, so a re-acquired lock does not carry the test), and only with the PGP plaintext for the submitted passphrase; the injection handler reaches unsealCA only with a verified client-certificate chain; /readyz writes 200 exactly when the signer is loaded; after loading, the published key list contains both signing keys (nested-loop invariants).",
+   note=TRUST + "PGP decryption is an assumed contract (wrong passphrase => error). 'Exactly one transition under concurrent injections' is argued by mutual exclusion (trusted sync.Mutex contract), not by exploring interleavings. Session-cookie and token signing while sealed fail inside go-jose on the nil key (not under contract). The start-up load (before any listener) is exempted from the lock obligation by a named clause.",
+   design="7 (C09)"),
  "C10": dict(
    text="Deductive proof that ValidatePublicKeyStrength accepts exactly the property's strong keys (RSA >= 2048 bits and e >= 65537, NIST >= 256, Ed25519) and that every signing wrapper (SSH, X.509, Kubernetes, automation, refresh) is reached only with a key for which that predicate holds; no-panic obligations (index, nil, type assertion) for the address-extension decoder and the SSH key validator.",
    note=TRUST + "Parsers (x509, ssh, asn1) are trusted to return well-shaped values (type invariant of asn1.BitString; NIST curve sizes). The cloud-role path and panics inside dependency parsers are not covered.",
